@@ -8,6 +8,9 @@ open Dlmodel
      sd T | srd T | swd T         SetDeadline / SetReadDeadline / SetWriteDeadline, T = 0 is the zero time
      ka r|w D                     Set<x>Deadline(now + D)
      wsup D | wsmsg D             websocket upgrade / message with KeepaliveTime D (0 = disabled)
+     cdo T P                      ClientConn.Do with Timeout T; P = 1: another request is already pending
+     cresp I                      response arrived, nothing else pending, IdleConnTimeout I (0 = clear)
+     cresppend T TN               response arrived, next pending request was sent at TN, Timeout T
      w 0|1                        Write; 1 = the kernel took everything that was offered
      drain | close
    every command but init answers   <projection, read preferred> | <projection, write preferred>
@@ -51,6 +54,9 @@ let () =
       | ["ka"; x; d] -> apply [KeepAlive (dir x, num d)]
       | ["wsup"; d] -> apply (ws_upgrade (num d))
       | ["wsmsg"; d] -> apply (ws_message (num d))
+      | ["cdo"; t; p] -> apply (client_do (num t) (p = "1"))
+      | ["cresp"; i] -> apply (client_response (num i))
+      | ["cresppend"; t; tn] -> apply (client_response_pending (num t) (num tn))
       | ["w"; f] -> apply [Write (f = "1")]
       | ["drain"] -> apply [Drain]
       | ["close"] -> apply [Close]
